@@ -215,6 +215,9 @@ class Module(AuxDataContainer):
         :param ir: The :class:`IR` this module belongs to.
         """
 
+        # Set while loading: the UUID of an entry point that was not decoded
+        # yet when this module was.
+        self._pending_entry_point: typing.Optional[UUID] = None
         self._symbol_name_index: typing.MutableMapping[
             str, typing.Set[Symbol]
         ] = collections.defaultdict(set)
@@ -269,17 +272,15 @@ class Module(AuxDataContainer):
         m.sections.update(
             Section._from_protobuf(s, ir) for s in proto_module.sections
         )
-        # entry point is a code block, which depends on sections
+        # entry point is a code block, which depends on sections. One that
+        # belongs to a module decoded later is resolved by the IR afterwards.
         m.entry_point = None
         if proto_module.entry_point:
             entry_point_uuid = UUID(bytes=proto_module.entry_point)
-            entry_point = ir.get_by_uuid(entry_point_uuid)
-            if not isinstance(entry_point, CodeBlock):
-                raise DeserializationError(
-                    "Module: entry block UUID %s is not a CodeBlock"
-                    % entry_point_uuid
-                )
-            m.entry_point = entry_point
+            if ir.get_by_uuid(entry_point_uuid) is None:
+                m._pending_entry_point = entry_point_uuid
+            else:
+                m._resolve_entry_point(entry_point_uuid, ir)
         # symbols depend on blocks
         m.symbols.update(
             Symbol._from_protobuf(s, ir) for s in proto_module.symbols
@@ -294,6 +295,16 @@ class Module(AuxDataContainer):
         )
 
         return m
+
+    def _resolve_entry_point(self, entry_point_uuid: UUID, ir: "IR") -> None:
+        entry_point = ir.get_by_uuid(entry_point_uuid)
+        if not isinstance(entry_point, CodeBlock):
+            raise DeserializationError(
+                "Module: entry block UUID %s is not a CodeBlock"
+                % entry_point_uuid
+            )
+        self.entry_point = entry_point
+        self._pending_entry_point = None
 
     def _to_protobuf(self) -> Module_pb2.Module:
         proto_module = Module_pb2.Module()
